@@ -1,4 +1,4 @@
-import GeffProofs.Backends
+import GeffProofs.C03Aux
 /-! # C03 — graph-library round trips are faithful and the backends agree
 
 Property theorems only.  Models: `GeffModel/Dicts.lean` (`write_dicts`, `dict_props_to_arr`,
@@ -21,53 +21,18 @@ How the statement of the property is read here
 namespace GeffProps.C03
 open Geff.Np Geff.Dicts Geff.Backends
 
-/-- what a graph shows through its adapter -/
-structure Obs where
-  directed : Bool
-  hasNode : Int → Bool
-  hasEdge : Int × Int → Bool
-  nodeAttr : Int → String → Option PyVal
-  edgeAttr : Int × Int → String → Option PyVal
-
-def nxObs (g : NxGraph) : Obs := ⟨g.directed, g.hasNode, g.hasEdge, g.nodeAttr, g.edgeAttr⟩
-def rxObs (g : RxGraph) : Obs := ⟨g.directed, g.hasNode, g.hasEdge, g.nodeAttr, g.edgeAttr⟩
-
-/-- SPECIFICATION of an in-memory geff (docs: `values` + optional `missing` per property): the
-attribute graph it denotes.  Element `k` has property `name` iff the property exists and `k` is
-not marked missing; its value is `values[k]`. -/
-def memObs (m : MemGeff) : Obs :=
-  ⟨m.directed, fun i => decide (i ∈ m.nodeIds), fun e => m.edgeIds.any (fun x => sameEdge m.directed x e),
-   specNodeAttr m, specEdgeAttr m⟩
-
-/-- what property C01 establishes about the store: reading back what was written returns the same
-in-memory geff, up to the order in which the properties are listed -/
-structure MemEquiv (m m' : MemGeff) : Prop where
-  directed : m'.directed = m.directed
-  nodeIds : m'.nodeIds = m.nodeIds
-  edgeIds : m'.edgeIds = m.edgeIds
-  nodeProps : m'.nodeProps.Perm m.nodeProps
-  edgeProps : m'.edgeProps.Perm m.edgeProps
+/-! The definitions the statements use live in `GeffProofs/C03Aux.lean` (they are needed by helper
+lemmas): `Obs` (directed, hasNode, hasEdge, nodeAttr, edgeAttr), `nxObs` / `rxObs` (a backend graph
+seen through its adapter), `memObs` (the SPECIFICATION: the attribute graph an in-memory geff
+denotes — element `k` has property `name` iff the property exists and `k` is not marked missing,
+with value `values[k]`), `MemEquiv` (same ids, edges, directedness, properties up to their order);
+`MemValid`, `NxDomain`, `RegularVals`, `LeafClass` are in `GeffProofs/Backends.lean` / `Dicts.lean`. -/
 
 /-- **named hypothesis** (property C01, not re-proved here) -/
 def StoreRoundTrip (store : MemGeff → Except Err MemGeff) : Prop :=
   ∀ m, MemValid m → ∃ m', store m = .ok m' ∧ MemEquiv m m'
 
 /-! ## backends agree -/
-
-theorem nx_hasNode_eq (g : NxGraph) (ids : List Int) (h : g.nodes.map (·.1) = ids) (i : Int) :
-    g.hasNode i = decide (i ∈ ids) := by
-  subst h
-  simp only [NxGraph.hasNode]
-  rw [Bool.eq_iff_iff]
-  simp only [List.any_eq_true, decide_eq_true_eq, List.mem_map]
-  constructor
-  · rintro ⟨x, hx, rfl⟩; exact ⟨x, hx, rfl⟩
-  · rintro ⟨x, hx, rfl⟩; exact ⟨x, hx, rfl⟩
-
-theorem nx_hasEdge_eq (g : NxGraph) (es : List (Int × Int)) (h : g.edges.map (·.1) = es) (e : Int × Int) :
-    g.hasEdge e = es.any (fun x => sameEdge g.directed x e) := by
-  subst h
-  simp [NxGraph.hasEdge, List.any_map, Function.comp_def]
 
 /-- **C03 (networkx construct is the specified graph)**: for every valid in-memory geff — any
 number of nodes / edges / properties, any dtypes, any missing masks, variable-length or not —
@@ -115,82 +80,45 @@ theorem C03_dict_layer {ι : Type} (K : LeafClass) (sh : Option (List Nat)) (dat
       ∀ i (hi : i < data.length), c.entry i = (data[i]).2.lookup name :=
   dictPropToArr_regular K sh data name h
 
+/-- **C03 (dict layer, ragged lists)**: the same for a variable-length list property — lists of
+one rank and one leaf class (`RaggedVals`; integers ≥ 2^63 are the known finding
+`C03:ragged-int-values-ge-2^63`) on any subset of the elements. -/
+theorem C03_dict_layer_ragged {ι : Type} (K : LeafClass) (r w : Nat) (data : List (ι × Attrs))
+    (name : String) (h : RaggedVals K r w (present data name)) :
+    ∃ c, dictPropToArr data name = .ok c ∧ c.WF data.length ∧
+      ∀ i (hi : i < data.length), c.entry i = (data[i]).2.lookup name :=
+  dictPropToArr_ragged K r w data name h
+
 /-! ## networkx round trip -/
 
-theorem lookup_of_mem_nodup {β : Type} (l : List (String × β)) (k : String) (v : β)
-    (hm : (k, v) ∈ l) (hnd : (l.map (·.1)).Nodup) : l.lookup k = some v := by
-  induction l with
-  | nil => simp at hm
-  | cons p t ih =>
-    obtain ⟨k', v'⟩ := p
-    rw [lookup_cons_ite]
-    have hnd' := List.nodup_cons.1 (by simpa using hnd)
-    rcases List.mem_cons.1 hm with heq | hm'
-    · cases heq; simp
-    · have hne : k ≠ k' := by
-        intro e; subst e
-        exact hnd'.1 (List.mem_map.2 ⟨(k, v), hm', rfl⟩)
-      simp only [hne, if_false]
-      exact ih hm' hnd'.2
+/-- `geff.write(graph, store)` then `geff.read(store, backend=…)` with the store abstracted:
+`written` is what the backend's `write` hands to `write_arrays`, `construct` the reading backend -/
+def writeRead {γ : Type} (written : Except Err MemGeff) (store : MemGeff → Except Err MemGeff)
+    (construct : MemGeff → Except Err γ) : Except Err γ :=
+  match written with
+  | .error e => .error e
+  | .ok m =>
+    match store m with
+    | .error e => .error e
+    | .ok m' => construct m'
 
-theorem perm_lookup {β : Type} (l l' : List (String × β)) (hp : l'.Perm l) (hnd : (l.map (·.1)).Nodup)
-    (k : String) : l'.lookup k = l.lookup k := by
-  have hnd' : (l'.map (·.1)).Nodup := (hp.map (·.1)).nodup_iff.2 hnd
-  cases hl : l.lookup k with
-  | some v => exact lookup_of_mem_nodup l' k v (hp.mem_iff.2 (lookup_mem l k v hl)) hnd'
-  | none =>
-    apply lookup_none_of_not_mem
-    intro hk
-    obtain ⟨v, hv⟩ := lookup_some_of_mem l k ((hp.map (·.1)).mem_iff.1 hk)
-    rw [hv] at hl; cases hl
-
-theorem memEquiv_valid (m m' : MemGeff) (he : MemEquiv m m') (h : MemValid m) : MemValid m' :=
-  { nodup := by rw [he.nodeIds]; exact h.nodup
-    endpoints := by rw [he.nodeIds, he.edgeIds]; exact h.endpoints
-    simple := by rw [he.edgeIds, he.directed]; exact h.simple
-    nodeNames := ((he.nodeProps.map (·.1)).nodup_iff).2 h.nodeNames
-    edgeNames := ((he.edgeProps.map (·.1)).nodup_iff).2 h.edgeNames
-    nodeCols := by
-      intro p hp; rw [he.nodeIds]; exact h.nodeCols p (he.nodeProps.mem_iff.1 hp)
-    edgeCols := by
-      intro p hp; rw [he.edgeIds]; exact h.edgeCols p (he.edgeProps.mem_iff.1 hp) }
-
-theorem memEquiv_obs (m m' : MemGeff) (he : MemEquiv m m') (h : MemValid m) : memObs m' = memObs m := by
-  simp only [memObs, Obs.mk.injEq]
-  refine ⟨he.directed, by rw [he.nodeIds], by rw [he.edgeIds, he.directed], ?_, ?_⟩
-  · funext i name
-    simp only [specNodeAttr, he.nodeIds, memAttr, perm_lookup _ _ he.nodeProps h.nodeNames]
-  · funext e name
-    simp only [specEdgeAttr, he.edgeIds, he.directed, memAttr, perm_lookup _ _ he.edgeProps h.edgeNames]
-
-/-- `geff.write(G, store)` then `geff.read(store, backend="networkx")`, the store abstracted -/
+/-- written by networkx, read by networkx -/
 def nxWriteRead (store : MemGeff → Except Err MemGeff) (G : NxGraph) : Except Err NxGraph :=
-  match nxWrite G with
-  | .error e => .error e
-  | .ok m =>
-    match store m with
-    | .error e => .error e
-    | .ok m' => nxConstruct m'
+  writeRead (nxWrite G) store nxConstruct
 
-/-- `geff.write(G, store)` then `geff.read(store, backend="rustworkx")` -/
+/-- written by networkx, read by rustworkx -/
 def nxWriteRxRead (store : MemGeff → Except Err MemGeff) (G : NxGraph) : Except Err RxGraph :=
-  match nxWrite G with
-  | .error e => .error e
-  | .ok m =>
-    match store m with
-    | .error e => .error e
-    | .ok m' => rxConstruct m'
+  writeRead (nxWrite G) store rxConstruct
 
-theorem nxWrite_obs (G : NxGraph) (h : NxDomain G) :
-    ∃ m, nxWrite G = .ok m ∧ MemValid m ∧ memObs m = nxObs G := by
-  obtain ⟨m, hm, hv, hd, hna, hea, hni, hei⟩ := nxWrite_spec G h
-  refine ⟨m, hm, hv, ?_⟩
-  simp only [memObs, nxObs, Obs.mk.injEq]
-  refine ⟨hd, ?_, ?_, ?_, ?_⟩
-  · funext i; rw [hni]; exact (nx_hasNode_eq G _ rfl i).symm
-  · funext e; rw [hei, hd]; exact (nx_hasEdge_eq G _ rfl e).symm
-  · funext i name; exact hna i name
-  · funext e name; exact hea e name
+/-- `geff.write(g, store, node_id_dict=d)` then `geff.read(store, backend="rustworkx")` -/
+def rxWriteRead (store : MemGeff → Except Err MemGeff) (g : RxGraph) (d : Option (List (Nat × Int))) :
+    Except Err RxGraph :=
+  writeRead (rxWrite g d) store rxConstruct
+
+/-- `geff.write(g, store, node_id_dict=d)` then `geff.read(store, backend="networkx")` -/
+def rxWriteNxRead (store : MemGeff → Except Err MemGeff) (g : RxGraph) (d : Option (List (Nat × Int))) :
+    Except Err NxGraph :=
+  writeRead (rxWrite g d) store nxConstruct
 
 /-- **C03 (networkx round trip)**: for every attribute graph in the documented domain
 (`NxDomain`: ids in `[0, 2^64)`, simple graph, every property *regular* on the subset of elements
@@ -205,7 +133,7 @@ theorem C03_nx_roundtrip (store : MemGeff → Except Err MemGeff) (hs : StoreRou
   obtain ⟨m, hm, hv, hobs⟩ := nxWrite_obs G h
   obtain ⟨m', hst, heq⟩ := hs m hv
   obtain ⟨G', hG', hobs'⟩ := C03_nx_construct m' (memEquiv_valid m m' heq hv)
-  refine ⟨G', by simp only [nxWriteRead, hm, hst, hG'], ?_⟩
+  refine ⟨G', by simp only [nxWriteRead, writeRead, hm, hst, hG'], ?_⟩
   rw [hobs', memEquiv_obs m m' heq hv, hobs]
 
 /-- **C03 (written by networkx, read by rustworkx)**: the other ordered backend pair of the
@@ -216,8 +144,26 @@ theorem C03_nx_to_rx (store : MemGeff → Except Err MemGeff) (hs : StoreRoundTr
   obtain ⟨m, hm, hv, hobs⟩ := nxWrite_obs G h
   obtain ⟨m', hst, heq⟩ := hs m hv
   obtain ⟨G', hG', hobs'⟩ := C03_rx_construct m' (memEquiv_valid m m' heq hv)
-  refine ⟨G', by simp only [nxWriteRxRead, hm, hst, hG'], ?_⟩
+  refine ⟨G', by simp only [nxWriteRxRead, writeRead, hm, hst, hG'], ?_⟩
   rw [hobs', memEquiv_obs m m' heq hv, hobs]
+
+/-- **C03 (rustworkx round trip)**: let `(nd, ed) = rxDicts g d` be the attribute graph the
+rustworkx graph `g` denotes under `node_id_dict = d` (node payloads at the indices in use —
+holes skipped — renamed through `d`, or the indices themselves when `d = None`; the edge list
+renamed likewise).  If that graph is in the documented domain, writing `g` and reading it back
+with rustworkx yields a graph that shows — through `to_rx_id_map`, as the repaired adapter does —
+exactly that attribute graph; reading it with networkx likewise. -/
+theorem C03_rx_roundtrip (store : MemGeff → Except Err MemGeff) (hs : StoreRoundTrip store)
+    (g : RxGraph) (d : Option (List (Nat × Int))) (nd : List (Int × Attrs)) (ed : List ((Int × Int) × Attrs))
+    (hd : rxDicts g d = .ok (nd, ed)) (h : NxDomain ⟨g.directed, nd, ed⟩) :
+    (∃ G', rxWriteRead store g d = .ok G' ∧ rxObs G' = nxObs ⟨g.directed, nd, ed⟩) ∧
+    (∃ G', rxWriteNxRead store g d = .ok G' ∧ nxObs G' = nxObs ⟨g.directed, nd, ed⟩) := by
+  have hw : rxWrite g d = nxWrite ⟨g.directed, nd, ed⟩ := by simp only [rxWrite, hd, nxWrite]
+  obtain ⟨G1, h1, o1⟩ := C03_nx_to_rx store hs ⟨g.directed, nd, ed⟩ h
+  obtain ⟨G2, h2, o2⟩ := C03_nx_roundtrip store hs ⟨g.directed, nd, ed⟩ h
+  refine ⟨⟨G1, ?_, o1⟩, ⟨G2, ?_, o2⟩⟩
+  · rw [rxWriteRead, hw]; exact h1
+  · rw [rxWriteNxRead, hw]; exact h2
 
 /-! ## non-vacuity and the defects the theorems exclude -/
 
@@ -236,10 +182,14 @@ example : StoreRoundTrip (fun m => .ok m) :=
 
 /-- the round trip of `exG` evaluated in the model: bool stays bool under missing elements (D2),
 2^63+1 stays an exact integer next to 5 and a fill (D21), 2^64-1 stays a node id (D18) -/
-example : (nxWriteRead (fun m => .ok m) exG).toOption.map (fun g => (g.nodeAttr 5 "f", g.nodeAttr 18446744073709551615 "f",
-    g.nodeAttr 5 "p", g.nodeAttr 7 "p", g.hasNode 18446744073709551615, g.edgeAttr (5, 7) "w")) =
-    some (some (.sc (.b true)), none, some (.sc (.i 9223372036854775809)), none, true, some (.sc (.s "a"))) := by
-  decide
+def exRT : Option NxGraph := (nxWriteRead (fun m => .ok m) exG).toOption
+
+example : exRT.map (fun g => g.nodeAttr 5 "f") = some (some (.sc (.b true))) := by decide
+example : exRT.map (fun g => g.nodeAttr 18446744073709551615 "f") = some none := by decide
+example : exRT.map (fun g => g.nodeAttr 5 "p") = some (some (.sc (.i 9223372036854775809))) := by decide
+example : exRT.map (fun g => g.nodeAttr 7 "p") = some none := by decide
+example : exRT.map (fun g => g.hasNode 18446744073709551615) = some true := by decide
+example : exRT.map (fun g => g.edgeAttr (5, 7) "w") = some (some (.sc (.s "a"))) := by decide
 
 /-- the hypotheses of the dict-layer theorem hold for the bool property of `exG` (class bool,
 scalars), for its big-integer property (class uint64) and for its list property -/
@@ -257,6 +207,91 @@ example : RegularVals .uint64 none (present exG.nodes "p") := by
   simp at hx
   rcases hx with rfl | rfl <;> simp [pyShape, pyLeaves, LeafClass.holds, two64]
 
+/-- `exG` lies in the documented domain: the round-trip theorems apply to it -/
+example : NxDomain exG where
+  nodup := by decide
+  idRange := by decide
+  endpoints := by decide
+  simple := by decide
+  nodeProps := by
+    intro name
+    by_cases h1 : name = "f"
+    · subst h1
+      refine Or.inl ⟨.bool, none, by simp, ?_⟩
+      intro x hx
+      simp only [present, exG, List.filterMap_cons, lookup_cons_ite] at hx
+      simp at hx
+      rcases hx with rfl | rfl <;> simp [pyShape, pyLeaves, LeafClass.holds]
+    · by_cases h2 : name = "p"
+      · subst h2
+        refine Or.inl ⟨.uint64, none, by simp, ?_⟩
+        intro x hx
+        simp only [present, exG, List.filterMap_cons, lookup_cons_ite] at hx
+        simp at hx
+        rcases hx with rfl | rfl <;> simp [pyShape, pyLeaves, LeafClass.holds, two64]
+      · by_cases h3 : name = "v"
+        · subst h3
+          refine Or.inl ⟨.float, some [2], by simp, ?_⟩
+          intro x hx
+          simp only [present, exG, List.filterMap_cons, lookup_cons_ite] at hx
+          simp at hx
+          subst hx
+          simp [pyShape, pyLeaves, LeafClass.holds]
+        · refine Or.inl ⟨.bool, none, ?_⟩
+          have : present exG.nodes name = [] := by
+            simp [present, exG, lookup_cons_ite, h1, h2, h3]
+          rw [this]; exact regular_nil _
+  edgeProps := by
+    intro name
+    by_cases h1 : name = "w"
+    · subst h1
+      refine Or.inl ⟨.str, none, by simp, ?_⟩
+      intro x hx
+      simp only [present, exG, List.filterMap_cons, lookup_cons_ite] at hx
+      simp at hx
+      subst hx
+      simp [pyShape, pyLeaves, LeafClass.holds]
+    · refine Or.inl ⟨.bool, none, ?_⟩
+      have : present exG.edges name = [] := by
+        simp [present, exG, lookup_cons_ite, h1]
+      rw [this]; exact regular_nil _
+
+/-- non-vacuity for rustworkx: a graph with a removed index (hole at 1), an explicit
+`node_id_dict` with an id above 2^63, a bool payload on one node only; `rxDicts` evaluates to the
+denoted attribute graph and the round trip shows it -/
+def exRx : RxGraph :=
+  { directed := false,
+    slots := [some [("f", .sc (.b true))], none, some []],
+    edges := [((2, 0), [("w", .sc (.i 3))])], idMap := none }
+
+example : (rxDicts exRx (some [(0, 100), (2, 9223372036854775808)])).toOption.map (·.1) =
+    some [(100, [("f", .sc (.b true))]), (9223372036854775808, [])] := by decide
+example : (rxDicts exRx (some [(0, 100), (2, 9223372036854775808)])).toOption.map (·.2) =
+    some [((9223372036854775808, 100), [("w", .sc (.i 3))])] := by decide
+example : (rxWriteRead (fun m => .ok m) exRx (some [(0, 100), (2, 9223372036854775808)])).toOption.map
+    (fun g => g.nodeAttr 100 "f") = some (some (.sc (.b true))) := by decide
+example : (rxWriteRead (fun m => .ok m) exRx (some [(0, 100), (2, 9223372036854775808)])).toOption.map
+    (fun g => (g.nodeAttr 9223372036854775808 "f", g.hasEdge (100, 9223372036854775808))) = some (none, true) := by
+  decide
+/-- an index that `node_id_dict` does not cover is `KeyError`, as in Python -/
+example : (rxDicts exRx (some [(0, 100)])).map (fun _ => ()) = .error .keyError := by decide
+
+/-- non-vacuity of the ragged dict-layer theorem: lists of different length on two of three elements -/
+def exRag : List (Int × Attrs) :=
+  [(0, [("r", .arr [2] [.i 1, .i 2])]), (1, []), (2, [("r", .arr [1] [.i 7])])]
+
+example : RaggedVals .int64 1 1 (present exRag "r") := by
+  refine ⟨by decide, by decide, ?_⟩
+  intro x hx
+  simp only [present, exRag, List.filterMap_cons, lookup_cons_ite] at hx
+  simp at hx
+  rcases hx with rfl | rfl
+  · exact ⟨[2], [.i 1, .i 2], rfl, rfl, by decide, Or.inl (by simp), by decide⟩
+  · exact ⟨[1], [.i 7], rfl, rfl, by decide, Or.inl (by simp), by decide⟩
+
+example : (dictPropToArr exRag "r").toOption.map (fun c => (c.varlen, c.entry 0, c.entry 1, c.entry 2)) =
+    some (true, some (.arr [2] [.i 1, .i 2]), none, some (.arr [1] [.i 7])) := by decide
+
 /-- D2 as it was before the repair: with the old fill (int `0` for a bool) numpy's inference on
 `[True, 0]` is int64 and `True` is stored as the integer 1 — the kind changes.  This is the fact
 `dtypeOf (fill :: present) ≠ dtypeOf present` that made the round-trip theorem false for bool. -/
@@ -272,8 +307,9 @@ example : valuesToArr [.sc (.b true), defaultFor (.sc (.b true))] = .ok (.bool, 
 with integers on both sides of 2^63 inside one element needs an int → float cast (values rounded,
 leaf kind changes); the model marks it as outside its domain instead of returning the values -/
 theorem C03_counterexample_ragged_big :
-    ∀ c, dictPropToArr [((1 : Int), [("p", PyVal.arr [2] [.i 1, .i 2])]),
-                        (2, [("p", PyVal.arr [3] [.i 9223372036854775809, .i 3, .i 4])])] "p" ≠ .ok c := by
+    dictPropToArr [((1 : Int), [("p", PyVal.arr [2] [.i 1, .i 2])]),
+                   (2, [("p", PyVal.arr [3] [.i 9223372036854775809, .i 3, .i 4])])] "p"
+      = .error (.unmodelled "cast between kinds") := by
   decide
 
 end GeffProps.C03
